@@ -177,3 +177,8 @@ func Pod(ns, name, ip string, labels map[string]string, terminating bool) *api.P
 	}
 	return p
 }
+
+// SelfSigned creates a self-signed certificate (PEM crt, key). notAfterDays <= 0 means one year.
+func SelfSigned(cn string, dns []string, notAfterDays int) (crt, key []byte) {
+	return selfSigned(cn, dns, notAfterDays)
+}
